@@ -26,7 +26,10 @@ EXPLANATION = (
     "both on a match and the smaller side otherwise; (R5) the buffet keeps "
     "a line exactly when the iteration-stamp PREFIX up to and including the "
     "evict-on rank (slice from 0, length index+1, 0 for root) equals the "
-    "same prefix of the next use and a next use exists.")
+    "same prefix of the next use and a next use exists; (R6) the cache's "
+    "'there is room' shortcut in to_be_buffered is exactly the negation of "
+    "the eviction-loop condition of add_elem (linear normal form), so a "
+    "line admitted through the shortcut never evicts a resident line.")
 RULE = ("one obligation per temp-file table, per callback slot x policy, per "
         "binding loop x name, per merge branch")
 
@@ -39,6 +42,7 @@ def run(ctx):
     ctx.guard(r3_stale)
     ctx.guard(r4_merges)
     ctx.guard(r5_window)
+    ctx.guard(r6_space)
 
 
 def _walk(stmts):
@@ -452,3 +456,70 @@ def r5_window(ctx):
                     "different windows are merged (or one window split), so "
                     "fills / write-backs are not one per (line, window) pair"
                     % "; ".join(why), text_="buffet window")
+
+
+# -- R6: cache admission shortcut agrees with the eviction loop ----------------
+
+def _lin_cmp(ctx, f, test, pol=True):
+    """(polynomial p, op) with `test` <=> p op 0, op in {'<=', '<'}."""
+    from .c18 import poly
+    if isinstance(test, ast.UnaryOp) and isinstance(test.op, ast.Not):
+        return _lin_cmp(ctx, f, test.operand, not pol)
+    if not isinstance(test, ast.Compare) or len(test.ops) != 1:
+        return None
+    l, r = poly(ctx, f, test.left), poly(ctx, f, test.comparators[0])
+    if l is None or r is None:
+        return None
+    d = dict(l)
+    for k, v in r.items():
+        d[k] = d.get(k, 0) - v
+    d = {k: v for k, v in d.items() if v}
+    op = type(test.ops[0])
+    neg = {k: -v for k, v in d.items()}
+    table = {ast.LtE: (d, "<="), ast.Lt: (d, "<"), ast.GtE: (neg, "<="), ast.Gt: (neg, "<")}
+    if op not in table:
+        return None
+    p, o = table[op]
+    if not pol:
+        p, o = {k: -v for k, v in p.items()}, {"<=": "<", "<": "<="}[o]
+    return tuple(sorted(p.items())), o
+
+
+def r6_space(ctx):
+    tb = [f for k, f in ctx.prog.funcs.items()
+          if k.startswith(T + "cacheTraffic.") and f.name == "to_be_buffered"]
+    ae = [f for k, f in ctx.prog.funcs.items()
+          if k.startswith(T + "cacheTraffic.") and f.name == "add_elem"]
+    ctx.require(len(tb) == 1 and len(ae) == 1, "C17.R6: cache callbacks not found")
+    tb, ae = tb[0], ae[0]
+    loops = [n for n in ae.own_nodes() if isinstance(n, ast.While)]
+    ctx.require(len(loops) == 1, "C17.R6: eviction loop of the cache's add_elem not found")
+    evict = _lin_cmp(ctx, ae, loops[0].test)
+    ctx.require(evict is not None, "C17.R6: eviction condition `%s` is not a "
+                "linear comparison" % text(loops[0].test))
+    # the shortcut: first `if <linear cmp>: to_buffer = True` of the miss path
+    short = None
+    for n in tb.own_nodes():
+        if isinstance(n, ast.If) and len(n.body) == 1 and isinstance(n.body[0], ast.Assign) \
+                and isinstance(n.body[0].value, ast.Constant) and n.body[0].value.value is True:
+            c = _lin_cmp(ctx, tb, n.test)
+            if c is not None:
+                short = (n, c)
+                break
+    if short is None:
+        ctx.bad("C17.R6", tb, tb.node, "the cache no longer admits a line "
+                "outright when there is room for it", text_="cache room shortcut")
+        return
+    n, c = short
+    room = (tuple(sorted((k, -v) for k, v in evict[0])), {"<=": "<", "<": "<="}[evict[1]])
+    if c == room:
+        ctx.ok("C17.R6", tb, n, "room test `%s` is the negation of the eviction "
+               "condition `%s`" % (text(n.test), text(loops[0].test)),
+               text_="cache room shortcut")
+    else:
+        ctx.bad("C17.R6", tb, n, "the cache admits a line outright when `%s`, "
+                "but add_elem evicts while `%s`: a line admitted through the "
+                "shortcut can still force out a resident line (even one reused "
+                "sooner), so the fills exceed the optimal policy's and can grow "
+                "with capacity" % (text(n.test), text(loops[0].test)),
+                text_="cache room shortcut")
